@@ -26,7 +26,8 @@ DiffOf(ev) ==
               THEN IF Len(a.frm) # Len(ev.post.frm) THEN {<<"frm.#", Len(a.frm), Len(ev.post.frm)>>}
                    ELSE {<<"frm", i>> : i \in {j \in 1..Len(a.frm) : a.frm[j] # ev.post.frm[j]}} ELSE {}
       pd == IF "post" \in DOMAIN ev /\ a.prm # ev.post.prm THEN {"prm"} ELSE {}
-      od == IF lastOut' # ev.out THEN {<<"out", lastOut', ev.out>>} ELSE {}
+      \* (the recording hooks only know that a call threw, not the class)
+      od == IF (ev.out = "threw" /\ lastOut' = "ok") \/ (ev.out # "threw" /\ lastOut' # ev.out) THEN {<<"out", lastOut', ev.out>>} ELSE {}
       sd == IF "sets" \in DOMAIN ev /\ lastSets' # ev.sets THEN {<<"sets", lastSets', ev.sets>>} ELSE {}
   IN hd \cup gd \cup fd \cup pd \cup od \cup sd
 
@@ -40,6 +41,8 @@ TAnalogCols == Ev.e = "AddAnalogCols" /\ AddAnalogColsF([f \in 1..Len(Ev.args.fr
 TSetParam == Ev.e = "SetParam" /\ SetParam(Ev.args.g, Ev.args.p)
 TLock == Ev.e \in {"LockGroup", "UnlockGroup"} /\ LockGroup(Ev.args.g, IF Ev.e = "LockGroup" THEN 1 ELSE 0)
 TReload == Ev.e = "Reload" /\ Reload
+\* write(path): nothing changes (C14); the file itself is checked where its bytes are recorded (replay)
+TSave == Ev.e = "Save" /\ Fits(obj) /\ Done(obj, [op |-> "Save"], "ok", <<>>) /\ UNCHANGED callers
 TGet == Ev.e = "Get" /\ Get([op |-> "Get", post |-> 0] @@ Ev.args) /\ (lastOut' = "ok" => lastRes' = Ev.res)
 \* a line whose call lies outside the modelled alphabet (only the repository's own tests produce them): the specification
 \* re-synchronises on the recorded state; the number of such steps is reported, never silent
@@ -47,7 +50,7 @@ THavoc == Ev.e = "Havoc" /\ obj' = StateOfPost(Ev.post) /\ lastOp' = [op |-> "Ha
           /\ hist' = hist /\ inScope' = FALSE /\ UNCHANGED callers
 TraceStep ==
   /\ l <= Len(TraceLog)
-  /\ \/ TNew \/ TAddFrame \/ TDeclPoint \/ TDeclAnalog \/ TPointCols \/ TAnalogCols \/ TSetParam \/ TLock \/ TReload \/ TGet
+  /\ \/ TNew \/ TSave \/ TAddFrame \/ TDeclPoint \/ TDeclAnalog \/ TPointCols \/ TAnalogCols \/ TSetParam \/ TLock \/ TReload \/ TGet
      \/ THavoc
   /\ obs' = (IF Ev.e = "Havoc" \/ DiffOf(Ev) = {} THEN "ok" ELSE <<"line", l, Ev.e, DiffOf(Ev)>>)
   /\ l' = l + 1
@@ -58,5 +61,5 @@ TraceAccepted == LET d == TLCGet("stats").diameter IN
 Conforms == obs = "ok"
 \* invariants evaluated after every accepted line
 TraceAgreement == (inScope /\ Mand(obj.grp)) => (AgreePoints(obj) /\ AgreeFrames(obj) /\ AgreeAnalogs(obj) /\ AgreeRate(obj))
-TraceIO == (l % 5 = 0) => IOInv          \* the file-format model is evaluated on every fifth state of a trace (cost)
+TraceIO == (l % 5 = 0 /\ inScope) => IOInv          \* the file-format model is evaluated on every fifth in-scope state of a trace (cost)
 =============================================================================
